@@ -32,7 +32,9 @@ GEN_DIR = LEAN_DIR / 'PanqecVerif' / 'Generated'
 INST_DIR = LEAN_DIR / 'PanqecVerif' / 'Instances'
 
 # kernel budget for the exhaustive enumeration (number of Paulis of weight < d)
-EXH_KERNEL_BUDGET = 400_000
+EXH_KERNEL_BUDGET = 30_000
+# below this number of kernel steps the enumeration is preferred (no search needed)
+EXH_PREFER = 1_500
 # native budget (driver op `checkdistance`, thorough tier)
 EXH_NATIVE_BUDGET = 30_000_000
 
@@ -276,33 +278,107 @@ def verify_packing(inst: Inst, sels: List[List[int]]) -> bool:
     return True
 
 
-def find_cert(inst: Inst, budget: int = EXH_KERNEL_BUDGET):
-    """('packing', sels) | ('exhaustive', None) | None"""
+def find_cert(inst: Inst, budget: int = 0):
+    """('packing', flat list of selection masks) | ('exhaustive', None) | None.
+    `budget`: largest number of candidates the exhaustive check may enumerate."""
+    budget = budget or EXH_KERNEL_BUDGET
     cnt = exhaustive_count(inst.n, inst.d)
-    if cnt <= min(budget, 3000):
+    # kernel cost of the enumeration: table construction + candidates
+    steps = 2 * inst.n * (len(inst.H) + 2 * inst.k) + 5 * cnt
+    if cnt <= budget and steps <= EXH_PREFER:
         return ('exhaustive', None)
     sels = packing_cert(inst)
     if sels is not None and verify_packing(inst, sels):
-        return ('packing', sels)
+        return ('packing', [c for ss in sels for c in ss])
     if cnt <= budget:
         return ('exhaustive', None)
     return None
 
 
+# ------------------------------------------------------------------ emission
+
+def lean_list(xs) -> str:
+    return '[' + ', '.join(str(x) for x in xs) + ']'
+
+
+def cert_lean(cert) -> str:
+    if cert[0] == 'exhaustive':
+        return '.exhaustive'
+    return '.packing ' + lean_list(cert[1])
+
+
+def emit_class(cls: str) -> Tuple[str, List[Dict]]:
+    body, names, info = [], [], []
+    for size in R.instance_sizes(cls):
+        inst = Inst(cls, size)
+        cert = find_cert(inst)
+        rec = {'class': cls, 'size': list(size), 'n': inst.n, 'k': inst.k, 'd': inst.d,
+               'kind': cert[0] if cert else None,
+               'candidates_below_d': exhaustive_count(inst.n, inst.d) if inst.d <= 8 else None}
+        info.append(rec)
+        if cert is None:
+            names.append('none')
+        else:
+            body.append(f'def {inst.name}_dist : DistCert := {cert_lean(cert)}\n')
+            names.append(f'some {inst.name}_dist')
+    src = (f'/- GENERATED by harness/regen_dist.py from /repo (panqec.codes.{cls}); do not edit.\n'
+           '   Distance lower-bound certificates (untrusted search; checked by `checkDistance`). -/\n'
+           'import PanqecVerif.Model.Dist\n'
+           f'import PanqecVerif.Generated.Inst{cls}\n'
+           f'namespace Panqec.Generated.{cls}\nopen Panqec\n\n' + '\n'.join(body) +
+           '\n/-- one entry per entry of `all`; `none` = no certificate found -/\n'
+           'def dists : List (Option DistCert) :=\n  [' + ', '.join(names) + ']\n'
+           '\n/-- the instances of `all` that carry a certificate -/\n'
+           'def certified : List (MaskCode × RankCert × DistCert) := attachCerts all dists\n'
+           f'\nend Panqec.Generated.{cls}\n')
+    return src, info
+
+
+def regen_dist(classes=None) -> Dict:
+    out = {'changed': [], 'instances': []}
+    for cls in (classes or K.CLASSES):
+        src, info = emit_class(cls)
+        if R.write_if_changed(GEN_DIR / f'Dist{cls}.lean', src):
+            out['changed'].append(cls)
+        out['instances'].extend(info)
+    return out
+
+
+def instance_file(cls: str) -> str:
+    return (f'import PanqecVerif.Generated.Dist{cls}\n'
+            f'import PanqecVerif.Instances.{cls}\n'
+            'import PanqecVerif.Proofs.Dist\n'
+            'namespace Panqec.Instances\nopen Panqec\n\n'
+            '/-- kernel evaluation of the distance-certificate checker on every certified instance -/\n'
+            f'theorem {cls}_distcheck :\n'
+            f'    (Generated.{cls}.certified.all fun q => checkDistance q.1 q.2.2) = true := by\n'
+            '  decide +kernel\n\n'
+            f'/-- for every certified {cls} instance the reported `d` is the true distance -/\n'
+            f'theorem {cls}_distance : ∀ q ∈ Generated.{cls}.certified,\n'
+            '    IsDistance q.1.n (q.1.stabs.map (unpackBits (2 * q.1.n))) q.1.d :=\n'
+            f'  certified_sound _ _ {cls}_valid {cls}_distcheck\n\n'
+            'end Panqec.Instances\n')
+
+
+def write_instance_files():
+    """the (static) instance theorem files; run once when a class is added"""
+    for cls in K.CLASSES:
+        R.write_if_changed(INST_DIR / f'Dist{cls}.lean', instance_file(cls))
+    R.write_if_changed(INST_DIR / 'DistAll.lean',
+                       ''.join(f'import PanqecVerif.Instances.Dist{c}\n' for c in K.CLASSES))
+
+
 if __name__ == '__main__':
+    import json
     import sys
     import time
     t0 = time.time()
-    tot = {}
-    for cls in (sys.argv[1:] or K.CLASSES):
-        for size in R.instance_sizes(cls):
-            t1 = time.time()
-            inst = Inst(cls, size)
-            c = find_cert(inst)
-            kind = c[0] if c else 'NONE'
-            tot[kind] = tot.get(kind, 0) + 1
-            dt = time.time() - t1
-            if c is None or dt > 0.5:
-                print(cls, size, 'n', inst.n, 'k', inst.k, 'd', inst.d, kind,
-                      'exh', exhaustive_count(inst.n, inst.d), f'{dt:.2f}s')
-    print(tot, f'{time.time() - t0:.1f}s')
+    if '--instance-files' in sys.argv:
+        write_instance_files()
+    r = regen_dist()
+    tot: Dict[str, int] = {}
+    for i in r['instances']:
+        tot[str(i['kind'])] = tot.get(str(i['kind']), 0) + 1
+        if i['kind'] is None:
+            print('uncertified', i)
+    print(json.dumps({'changed': r['changed'], 'kinds': tot}), f'{time.time() - t0:.1f}s')
